@@ -16,6 +16,9 @@ package ctxcheck
 //         <abbreviated dump of the live context> compared with Lean's incremental model AND Lean's ctxOf(state)
 //       `retain` keeps (copy of the live state, liveContext.Clone()) for later; `sibling` advances such a pair along
 //       another continuation (empty slots across epoch boundaries / upgrades) while the live pair follows the blocks;
+//       `sibblock` feeds a retained pair the blocks of an independent sibling chain (chain.Branch) — different blocks
+//       than the live chain's, deposits on both branches in different orders (the clones share the pubkey cache),
+//       slashings/exits on one side only, over epoch boundaries and fork upgrades;
 //       `recheck` re-dumps a retained pair (root, fresh=…, dump) at later moments: a clone must keep matching ITS state
 //       whatever the other clones do.
 
@@ -66,24 +69,33 @@ func gen(o hreg.Opts, w *bufio.Writer) error {
 	st := o.Stats
 	plans := []plan{
 		// every fork within four epochs, sync-committee period of two epochs, deposits arriving all the time
-		{"fast@1,2,3,4", 64, "mixed", 11, "kickstart", "deposits", 64},
-		{"fast@1,2,3,4", 32, "mixed", 12, "eth1", "eventful", 56},
+		{"fast@1,2,3,4", 64, "mixed", 11, "kickstart", "deposits", 56},
+		{"fast@1,2,3,4", 32, "mixed", 12, "eth1", "eventful", 48},
 		// altair from genesis / at epoch 2: sync-committee period boundaries with real rotations
-		{"fast@0,1,2,3", 48, "uniform", 13, "kickstart", "deposits", 56},
-		{"fast@2,3,3,5", 64, "rich", 14, "kickstart", "default", 64},
+		{"fast@0,1,2,3", 48, "uniform", 13, "kickstart", "deposits", 48},
+		{"fast@2,3,3,5", 64, "rich", 14, "kickstart", "default", 52},
 		// published minimal preset, phase0 only and with forks
-		{"minimal", 64, "mixed", 15, "kickstart", "default", 40},
-		{"minimal@1,2,3,4", 64, "mixed", 16, "kickstart", "deposits", 48},
+		{"minimal", 64, "mixed", 15, "kickstart", "default", 32},
+		{"minimal@1,2,3,4", 64, "mixed", 16, "kickstart", "showcase", 40},
+		// all per-fork constants different, non-power-of-two vectors (EPOCHS_PER_HISTORICAL_VECTOR 12/24/72/96), odd sync
+		// committee sizes, SLOTS_PER_EPOCH 8 or 6; fork-boundary blocks carrying every operation kind; early exits
+		{"apart:" + strconv.FormatInt(1+o.Seed%97, 10), 48, "mixed", 17, "kickstart", "showcase", 52},
+		{"apart:" + strconv.FormatInt(100+o.Seed%89, 10), 40, "mixed", 18, "eth1", "earlyexit", 48},
+		{"rand2:" + strconv.FormatInt(7+o.Seed%83, 10), 48, "rich", 19, "kickstart", "deposits", 48},
 	}
-	extra := o.Pick(4, 60)
-	pols := []string{"default", "deposits", "eventful", "exits", "sparse", "quiet"}
+	extra := o.Pick(1, 60)
+	pols := []string{"default", "deposits", "eventful", "exits", "sparse", "quiet", "earlyexit", "showcase", "late", "full", "edge"}
 	bals := []string{"mixed", "uniform", "rich", "poor"}
 	for i := 0; i < extra; i++ {
 		p := plan{n: 16 + rng.Intn(80), balances: bals[rng.Intn(len(bals))], seed: rng.Int63n(1 << 40),
 			gmode: []string{"kickstart", "kickstart", "eth1"}[rng.Intn(3)], policy: pols[rng.Intn(len(pols))], slots: 40 + rng.Intn(40)}
-		switch rng.Intn(3) {
+		switch rng.Intn(5) {
 		case 0:
 			p.cfg = fmt.Sprintf("rand:%d", rng.Int63n(1<<30))
+		case 3:
+			p.cfg = fmt.Sprintf("apart:%d", rng.Int63n(1<<30))
+		case 4:
+			p.cfg = fmt.Sprintf("rand2:%d", rng.Int63n(1<<30))
 		case 1:
 			e := rng.Intn(3)
 			p.cfg = fmt.Sprintf("fast@%d,%d,%d,%d", e, e+rng.Intn(2), e+1+rng.Intn(2), e+3)
@@ -149,7 +161,12 @@ func gen(o hreg.Opts, w *bufio.Writer) error {
 		type gret struct {
 			st   *beacon.StandardUpgradeableBeaconState
 			root common.Root
+			// br: an independent sibling CHAIN branched at the retained head (chain.Branch): its blocks — different
+			// from the live chain's — are fed to the retained (state copy, context clone) pair on the exec side
+			br      *chain.Chain
+			brSteps int
 		}
+		branches := 0
 		var kept []*gret
 		recheckAll := func(why string) {
 			for _, r := range kept {
@@ -162,16 +179,71 @@ func gen(o hreg.Opts, w *bufio.Writer) error {
 			if len(kept) >= 4 {
 				return
 			}
-			kept = append(kept, &gret{st: chain.WrapState(c.State), root: root})
+			r := &gret{st: chain.WrapState(c.State), root: root}
+			if branches < 2 && rng.Intn(3) != 0 {
+				if br, err := c.Branch(rng.Int63()); err == nil {
+					br.Policy = chain.PolicyByName([]string{"eventful", "deposits", "exits", "default"}[rng.Intn(4)])
+					r.br = br
+					branches++
+					st.Add("point", "branch-created")
+				}
+			}
+			kept = append(kept, r)
 			fmt.Fprintf(w, "retain x_pre=%s\n", hx(root))
 			st.Add("op", "retain")
 			st.Add("retain-at", why)
+		}
+		// one more slot of a sibling chain: its block (or empty slot) goes to the retained pair
+		siblingBlock := func(r *gret) error {
+			step, err := r.br.NextSlot(nil)
+			if err != nil {
+				st.Add("chain", "branch-stopped-early")
+				r.br = nil
+				return nil
+			}
+			r.brSteps++
+			f, err := flat.From(spec, step.Post)
+			if err != nil {
+				return err
+			}
+			nr := rootOf(step.Post)
+			if step.Skipped {
+				fmt.Fprintf(w, "sibling x_r=%s x_to=%d x_root=%s %s\n", hx(r.root), step.Slot, hx(nr), f.String())
+				st.Add("op", "sibling")
+			} else {
+				fmt.Fprintf(w, "sibblock x_r=%s x_slot=%d x_fork=%s x_ssz=%s x_root=%s %s\n", hx(r.root), step.Slot,
+					step.Block.Fork.String(), hex.EncodeToString(step.Block.Bytes(spec)), hx(nr), f.String())
+				st.Add("op", "sibblock")
+				for _, k := range []string{"deposit_new", "deposit_topup", "proposer_slashing", "attester_slashing", "voluntary_exit"} {
+					if hasOp(step, k) {
+						st.Add("point", "sibling-block-with-"+k)
+					}
+				}
+			}
+			if uint64(step.Slot)%spe == 0 {
+				st.Add("point", "sibling-chain-epoch-boundary")
+			}
+			if step.Fork != chain.ForkOfState(r.st) {
+				st.Add("point", "sibling-chain-fork-upgrade")
+				r.st = chain.WrapState(step.Post)
+			}
+			r.root = nr
+			if r.brSteps >= int(2*spe)+2 {
+				r.br = nil // the pair stays retained and keeps being rechecked
+			}
+			if uint64(step.Slot)%spe == 0 || rng.Intn(4) == 0 {
+				recheckAll("after-sibling-block")
+			}
+			return nil
 		}
 		sibling := func() error {
 			if len(kept) == 0 {
 				return nil
 			}
 			r := kept[rng.Intn(len(kept))]
+			if r.br != nil || r.brSteps > 0 {
+				return nil // this pair follows a sibling chain
+			}
 			cur, err := r.st.Slot()
 			if err != nil {
 				return err
@@ -213,6 +285,13 @@ func gen(o hreg.Opts, w *bufio.Writer) error {
 			if rng.Intn(9) == 0 {
 				if err := sibling(); err != nil {
 					return err
+				}
+			}
+			for _, r := range kept {
+				if r.br != nil && rng.Intn(3) != 0 {
+					if err := siblingBlock(r); err != nil {
+						return err
+					}
 				}
 			}
 			if reloadLeft == 0 && (interesting != "" && rng.Intn(2) == 0 || rng.Intn(14) == 0) {
@@ -519,6 +598,41 @@ func exec(o hreg.Opts, r *bufio.Scanner, w *bufio.Writer) error {
 					return "bad-op"
 				}
 				if err := common.ProcessSlots(ctx, s.spec, k.epc, k.st, common.Slot(to)); err != nil {
+					return "err"
+				}
+				return k.report(s.spec)
+			case "sibblock":
+				if s == nil || len(rest) != 0 || kv["x_root"] == "" {
+					return "bad-op"
+				}
+				k := s.findKept(kv["x_r"])
+				slot, err := strconv.ParseUint(kv["x_slot"], 10, 64)
+				f, okf := chain.ParseFork(kv["x_fork"])
+				data, err2 := hex.DecodeString(kv["x_ssz"])
+				if k == nil || err != nil || !okf || err2 != nil {
+					return "bad-op"
+				}
+				if _, err := flat.Parse(kv); err != nil {
+					return "bad-op"
+				}
+				blk, err := chain.DecodeBlock(s.spec, f, data)
+				if err != nil {
+					return "err"
+				}
+				cur, err := k.st.Slot()
+				if err != nil {
+					return "err"
+				}
+				if cur < common.Slot(slot) {
+					if err := common.ProcessSlots(ctx, s.spec, k.epc, k.st, common.Slot(slot)); err != nil {
+						return "err"
+					}
+				}
+				fk, err := k.st.Fork()
+				if err != nil {
+					return "err"
+				}
+				if err := common.PostSlotTransition(ctx, s.spec, k.epc, k.st, blk.Envelope(s.spec, fk.CurrentVersion, s.gvr), true); err != nil {
 					return "err"
 				}
 				return k.report(s.spec)
